@@ -19,7 +19,7 @@ RULE = ("unit = (receptors, sources, domain kind); inside: every K x baseline co
         "{0,1,2.5}^n (capped at 81, plus 2-D and 3-D batches) x both adaptation operations; non-trivial = non-zero intensity vector, "
         "distinct by (unit, K, baseline, intensity vector)")
 ASSUMPTIONS = ["spectra palette: quantised (1/8) Gaussian bumps with mixed overlaps, 5-7 domain samples", "receptors <= 5, sources <= 8 (thorough), <= 5 x 6 quick"]
-BOUNDS = {"quick": "m in 2..4, n in {1,2,3,5}, 3 domain kinds, 5 K x 3 baselines", "thorough": "m in 2..5, n in 1..8"}
+BOUNDS = {"quick": "m in 2..4, n in {1,2,3,5}, 3 domain kinds, 5 K x 3 baselines; adapting backgrounds at full, 1e-7 and 1e-14 strength, adapting intensities 1 and 1e-10", "thorough": "m in 2..5, n in 1..8"}
 TECHNIQUE = "full cross product of system shape x domain kind x K x baseline x intensity lattice, compared with an independent spectrum-space integral"
 LEVEL_TEXT = ("every configuration of the menu is registered through the public API and every lattice intensity vector is pushed through system_capture / "
               "system_relative_capture / capture / relative_capture, before and after both adaptation operations; results must equal the trapezoid integral of the "
